@@ -1535,7 +1535,13 @@ fn main() {
         match f[0] {
             "P" => {
                 let id = f[1];
-                let inp = unhex(f[3]);
+                // the input is placed at a start address whose alignment (0..7 modulo 8) varies from case to case
+                // (a word-at-a-time fast path must not depend on where the caller's bytes happen to sit)
+                let raw = unhex(f[3]);
+                let shift = id.bytes().fold(0usize, |a, b| (a * 31 + b as usize) % 8);
+                let mut holder = vec![0u8; shift];
+                holder.extend_from_slice(&raw);
+                let inp = &holder[shift..];
                 let param: u64 = f[4].parse().unwrap();
                 let brk: i64 = f[5].parse().unwrap();
                 ACC_PANIC.store(false, Ordering::Relaxed);
